@@ -6,7 +6,7 @@ from ..driver import Prop
 class C20(Prop):
     id = 'C20'
     design_ref = 'DESIGN.md section 4 / C20'
-    budgets = {'quick': 60000, 'thorough': 1200000}
+    budgets = {'quick': 60000, 'thorough': 800000}
 
     def gen(self, rng, index, tier):
         if index % 2:
